@@ -17,8 +17,8 @@ class StatefulSession(impl.Session):
     """real Session (variables, USE, SET, SHOW ...) whose application queries report the session's own state
     and complete only when the harness says so"""
 
-    def __init__(self, env, cid):
-        super().__init__()
+    def __init__(self, env, cid, variables=None):
+        super().__init__(variables)
         self.env = env
         self.cid = cid
 
@@ -96,16 +96,20 @@ def gen_program(rng, k):
     return prog
 
 
-def run_interleaved(rng, programs, schedule_seed):
-    """all programs on one loop; which connection advances next is drawn from the schedule PRNG"""
+def run_interleaved(rng, programs, schedule_seed, shared_globals=False):
+    """all programs on one loop; which connection advances next is drawn from the schedule PRNG.
+    shared_globals: the deployment Session(SessionVariables(one GlobalVariables for the whole server)) - the sessions share the
+    GLOBAL scope (which no program writes), everything a connection assigns or is assigned stays its own"""
     import random
+    from mysql_mimic.variables import GlobalVariables, SessionVariables
     sched = random.Random(schedule_seed)
     env = impl.Env(own_sleep=False)
     try:
         sessions = []
+        shared = GlobalVariables() if shared_globals else None
 
         def factory():
-            s = StatefulSession(env, len(sessions))
+            s = StatefulSession(env, len(sessions), SessionVariables(shared) if shared is not None else None)
             sessions.append(s)
             return s
 
@@ -174,15 +178,16 @@ def run(ctx: core.Ctx):
     for i in range(nsets):
         K = rng.choice([2, 3]) if ctx.quick else rng.choice([2, 3, 4])
         programs = [gen_program(rng, k) for k in range(K)]
-        alone = [run_interleaved(rng, [p], 0)[0] for p in programs]
+        shared = (i % 2 == 1)      # every other program set runs on sessions that share one GlobalVariables instance
+        alone = [run_interleaved(rng, [p], 0, shared)[0] for p in programs]
         for sd in range(nsched):
             runs += 1
-            got = run_interleaved(rng, programs, rng.randrange(1 << 30))
+            got = run_interleaved(rng, programs, rng.randrange(1 << 30), shared)
             for k in range(K):
                 if got[k] != alone[k] and witness is None:
                     a, b = cl.split_raw(alone[k]), cl.split_raw(got[k])
                     idx = next((j for j, (x, y) in enumerate(zip(a, b)) if x != y), min(len(a), len(b)))
-                    witness = dict(kind="interference", connections=K, connection=k, first_differing_packet=idx,
+                    witness = dict(kind="interference", connections=K, connection=k, sessions_share_global_variables=shared, first_differing_packet=idx,
                                    alone=repr(a[idx:idx + 2])[:300], interleaved=repr(b[idx:idx + 2])[:300],
                                    program=[repr(p)[:80] for p in programs[k]])
     ctx.evals += runs
@@ -195,7 +200,7 @@ def run(ctx: core.Ctx):
         core.coqchk(ctx, "Props/C08")
     core.write_evidence(
         ctx,
-        rule="K = 2..4 connections on one event loop, each with a random stateful program (SET / USE / COM_INIT_DB / SET NAMES / "
+        rule="K = 2..4 connections on one event loop (every other program set on sessions built over ONE shared GlobalVariables instance), each with a random stateful program (SET / USE / COM_INIT_DB / SET NAMES / "
              "prepare / long data / execute with and without cursor / fetch / variable reads / catalog statements that depend on the default "
              "database (SHOW TABLES, SHOW COLUMNS, DESCRIBE, COM_FIELD_LIST, SHOW INDEX over a schema whose databases all have a table t) / queries that stay in flight until the "
              "harness completes them / results whose rows arrive one harness event at a time, so that buffered output is pending while others run) under schedules drawn from a PRNG at event granularity (which packet is delivered next, which "
@@ -203,6 +208,7 @@ def run(ctx: core.Ctx):
              "transcript of the same program run alone. distinct = (program set, schedule)",
         samples=[dict(example_program=[repr(p)[:60] for p in gen_program(rng, 0)[:5]])], distinct=runs,
         extra=dict(program_sets=nsets, schedules_per_set=nsched),
-        assumptions=["objects the application injects (a shared Variables instance, one session object returned for all connections) are "
-                     "outside the library and excluded", "the per-connection machine itself is tied to the code by the lock-step runs of C03/C09/C10"],
+        assumptions=["objects the application injects as PER-CONNECTION state but shares (one SessionVariables instance, one session object "
+                     "returned for all connections) are outside the library and excluded; one GlobalVariables instance under all sessions is a "
+                     "supported deployment and is covered (no program writes the GLOBAL scope)", "the per-connection machine itself is tied to the code by the lock-step runs of C03/C09/C10"],
     )
